@@ -111,17 +111,29 @@ TEXT_POSITIONS = ["%s", "x %s y", ".Sm %s", ".Sm a %s", ".Bm\n%s\n.Em", ".Ch %s"
 
 # configuration values that reach markup without being rendered (D29-D33): image names with special characters
 # (the harness creates them), raw parameters, header ids used as anchors or file names
-CONFIG_DOCS = [".Im b\\e.png", ".Im b\\e.png cap", ".Im d\\e", ".Im d\\e cap", ".Im c&o.png", ".Im c\"o.png", ".Im c&o.png cap",
-               ".X set lang e\"n\nt", ".X set xhtml-css a&b\".css\nt", ".X set xhtml-favicon f\"<.ico\nt", ".X set dmark <\n.D\nt", ".X set dmark &\n.D\nt",
-               ".X set xhtml-custom-ids 1\n.Ch -id a&b T\nt\n.Sh -id c\"d U\n.Tc\n.Sx a&b", ".X set xhtml-custom-ids 1\n.Ch -id a<b T\n.Tc",
-               ".X set xhtml-chap-custom-filenames 1\n.Ch -id a&b T\nt\n.Ch -id c\"d U\nu\n.Tc", ".X set xhtml-chap-custom-filenames 1\n.X set xhtml-custom-ids 1\n.Ch -id a'b T\n.Sh -id x>y U",
-               ".X set xhtml-chap-prefix p\"q\n.Ch T\nt", ".X set xhtml-chap-prefix p&q\n.Ch T\nt",
-               ".X mtag -f xhtml -t u -c b -a |k<|v\n.Sm -t u w", ".X mtag -f xhtml -t u -c b -a |k&|v\n.Sm -t u w", ".X mtag -f xhtml -t u -c b -a |1k|v\n.Bm -t u\nw\n.Em",
-               ".X dtag -f xhtml -t d -c div -a |-k|v\n.Bd -t d\nw\n.Ed", ".X mtag -f xhtml -t c<d -c b\n.Sm -t c<d w", ".X mtag -f xhtml -t c&d -c b\n.Bm -t c&d\nw\n.Em"]
+# documents inside the quantifier of C02 (labels and tag names are identifiers, parameters are plain): image paths given as
+# macro arguments, attribute keys
+CONFIG_IN = [".Im b\\e.png", ".Im b\\e.png cap", ".Im d\\e", ".Im d\\e cap", ".Im c&o.png", ".Im c\"o.png", ".Im c&o.png cap",
+             ".X mtag -f xhtml -t u -c b -a |k<|v\n.Sm -t u w", ".X mtag -f xhtml -t u -c b -a |k&|v\n.Sm -t u w", ".X mtag -f xhtml -t u -c b -a |1k|v\n.Bm -t u\nw\n.Em",
+             ".X dtag -f xhtml -t d -c div -a |-k|v\n.Bd -t d\nw\n.Ed"]
+# documents outside it, which C03 ("no character of source text is interpreted as markup ... wherever it stands ... attribute")
+# and C05 do quantify over: unrendered parameters, header ids, tag names, the chapter prefix
+CONFIG_OUT = [".X set lang e\"n\nt", ".X set xhtml-css a&b\".css\nt", ".X set xhtml-favicon f\"<.ico\nt", ".X set dmark <\n.D\nt", ".X set dmark &\n.D\nt",
+              ".X set xhtml-custom-ids 1\n.Ch -id a&b T\nt\n.Sh -id c\"d U\n.Tc\n.Sx a&b", ".X set xhtml-custom-ids 1\n.Ch -id a<b T\n.Tc",
+              ".X set xhtml-chap-custom-filenames 1\n.Ch -id a&b T\nt\n.Ch -id c\"d U\nu\n.Tc", ".X set xhtml-chap-custom-filenames 1\n.X set xhtml-custom-ids 1\n.Ch -id a'b T\n.Sh -id x>y U",
+              ".X set xhtml-chap-prefix p\"q\n.Ch T\nt", ".X set xhtml-chap-prefix p&q\n.Ch T\nt",
+              ".X mtag -f xhtml -t c<d -c b\n.Sm -t c<d w", ".X mtag -f xhtml -t c&d -c b\n.Bm -t c&d\nw\n.Em"]
+CONFIG_DOCS = CONFIG_IN + CONFIG_OUT
 
 
-def config_cases(modes, pre=""):
-    return [e2e.case_of(fm, pre + d + "\n") for fm in modes for d in CONFIG_DOCS]
+def config_cases(modes, pre="", docs=None):
+    return [e2e.case_of(fm, pre + d + "\n") for fm in modes for d in (CONFIG_DOCS if docs is None else docs)]
+
+
+def config_wf_oracle(case, go):
+    """quiet compilation, and a markup file that is not well-formed XML: a character of a parameter, id or tag was read as markup"""
+    r = oracles.c02_oracle(case, go)
+    return ("a value written into an attribute or as text is interpreted as markup: " + r) if r and "KNOWN:" not in r else None
 
 
 def position_docs(specials, n, positions=TEXT_POSITIONS):
@@ -311,8 +323,13 @@ class C03(E2EProp):
         return e2e.E2EStream("S-e2e-xhtml-params", "e2e", cases, oracle=oracle, exhaustive=True, nontrivial=nontrivial,
                              describe="every string <= %d over {< > & dq x e-acute} as the text of the go-up link (multi-file) and as the EPUB subject: the character data seen equals the text written" % n)
 
+    def config_stream(self):
+        cases = config_cases(["x0", "x1", "x2"], docs=CONFIG_OUT) + config_cases(["e3"], ".X set document-title T\n.X set epub-uuid u\n", docs=CONFIG_OUT)
+        return e2e.E2EStream("S-e2e-xhtml-config", "e2e", cases, oracle=config_wf_oracle, exhaustive=True, nontrivial=nontrivial,
+                             describe="values that stand in attributes or text without being rendered at assignment - lang, css, favicon, dialogue mark, header ids, chapter prefix, tag names - with markup characters, every XHTML mode: none is read as markup (D32, D33, D35)")
+
     def streams(self, tier, rng):
-        sts = [esc_stream("html", tier, rng, "<>&\"'")] + C20().streams(tier, rng) + [self.param_stream(tier)] + super().streams(tier, rng)
+        sts = [esc_stream("html", tier, rng, "<>&\"'")] + C20().streams(tier, rng) + [self.param_stream(tier), self.config_stream()] + super().streams(tier, rng)
         prop = self
         st = sts[-1]
         orig_run = st.run
@@ -392,8 +409,8 @@ class C02(E2EProp):
         out = [("S-e2e-x0", fam_cases("x0", ALLFAM, T(tier, 3, 4), rng, T(tier, 2, 3), T(tier, 1500, 20000)), "XHTML fragments: family sequences, skeletons, random")]
         for fm in ("x1", "x2", "e3"):
             out.append(("S-e2e-" + fm, fam_cases(fm, ["head", "misc", "title"], 2, rng, None, T(tier, 300, 4000)), "mode %s" % fm))
-        out.append(("S-e2e-config", config_cases(["x0", "x1", "x2"]) + config_cases(["e3"], ".X set document-title T\n.X set epub-uuid u\n"),
-                    "images with special names, raw parameters and header ids used as anchors or file names (D31-D33 class), every XHTML mode"))
+        out.append(("S-e2e-config", config_cases(["x0", "x1", "x2"], docs=CONFIG_IN) + config_cases(["e3"], ".X set document-title T\n.X set epub-uuid u\n", docs=CONFIG_IN),
+                    "inside the quantifier of C02: image paths with special characters given as arguments, attribute keys (D31, D34), every XHTML mode"))
         return out
 
 
@@ -419,6 +436,9 @@ class C05(E2EProp):
         clash = [".Ch A\n.Bd -id s1\nt\n.Ed\n.Sx s1\n.Tc\n", ".Im i.png cap\n.Sm -id fig1 w\n.Sx fig1\n.Tc -lof\n", ".Bl -t table T\n.It a\n.El\n.Bm -id tbl1\nw\n.Em\n.Sx tbl1\n",
                  ".Tc -title Contents\n.Ch A\n.Bd -id toc-title\nt\n.Ed\n.Sx toc-title\n", ".Ch A\n.Sh B\n.Sm -id s2 w\n.Sx s2\n"]
         out.append(("S-e2e-anchor-clash", [e2e.case_of(fm, d) for fm in ("x0", "x1") for d in clash], "user ids with the form of the anchors generated for headers, figures, tables and the TOC title"))
+        ids = [d + "\n" for d in CONFIG_OUT if "-id " in d]
+        out.append(("S-e2e-id-characters", [e2e.case_of(fm, d) for fm in ("x0", "x1", "x2") for d in ids] + [e2e.case_of("e3", ".X set document-title T\n.X set epub-uuid u\n" + d) for d in ids],
+                    "header ids with quotes, & and < used as custom ids and custom file names (D33): every link still resolves to exactly one anchor"))
         return out
 
 
